@@ -42,6 +42,10 @@ struct Case<'a> {
     buf_len: usize,
     storage: usize,
     legal: bool,
+    /// before the call under test, the same encapsulator refuses an encap_ext call with the same label
+    /// (reserved protocol type / final mandatory extension that is not the protocol type): the refused call
+    /// must leave nothing behind that changes how the next packet is encoded
+    pre_fail: bool,
 }
 
 /// returns outcome class
@@ -58,7 +62,7 @@ fn run_case(c: &Case, rng: &mut Rng, rep: &mut Report, replay: &dyn Fn() -> Stri
     let mut enc = Encapsulator::new(DefaultCrc {});
     let mut dec = plain_dec(2, c.storage, 2, c.storage, table.clone());
     let meta = EncapMetadata::new(c.ptype, c.label);
-    let cls = format!("{}:{}{}", if c.legal { "legal" } else { "illegal" }, crate::sender::label_kind(&c.label), if c.primed { "+primed" } else { "" });
+    let cls = format!("{}:{}{}{}", if c.legal { "legal" } else { "illegal" }, crate::sender::label_kind(&c.label), if c.primed { "+primed" } else { "" }, if c.pre_fail { "+after-refused-call" } else { "" });
     if c.primed {
         let mut b = [0u8; 32];
         match guard(|| enc.encap(b"", 0, meta_plain(c.label), &mut b)) {
@@ -69,6 +73,14 @@ fn run_case(c: &Case, rng: &mut Rng, rep: &mut Report, replay: &dyn Fn() -> Stri
                 _ => return "prime-failed",
             },
             _ => return "prime-failed",
+        }
+    }
+    if c.pre_fail {
+        let mut b = vec![0u8; 4097];
+        let (pt, ex) = if c.buf_len % 2 == 0 { (0x0100 + (c.buf_len % 0x500) as u16, exts.clone()) } else { (0x0043u16, vec![Extension::new(0x0042, &[1, 2, 3]).unwrap()]) };
+        match guard(|| enc.encap_ext(c.pdu, 9, EncapMetadata::new(pt, c.label), &mut b, ex)) {
+            Ok(Err(_)) => rep.count("c13.pre-fail-refused"),
+            _ => return "pre-fail-not-refused",
         }
     }
     let mut buf = sentinel(c.buf_len, 0x3C);
@@ -238,6 +250,46 @@ fn run_case(c: &Case, rng: &mut Rng, rep: &mut Report, replay: &dyn Fn() -> Stri
             }
         }
     }
+    // ---- the whole PDU is dropped even when an older, compatible train is open on the same fragment id: a first
+    // fragment without the extension (same label, type, total length and payload: the CRC does not cover
+    // extensions) is accepted first, then the train whose first fragment carries the unknown mandatory extension
+    if np > 1 && !mand_ids.is_empty() {
+        if let Ok(p0) = wire::parse(&pkts[0], &table) {
+            if let (Some(pt), Some(tl)) = (p0.ptype, p0.total_len) {
+                if pt >= 0x0600 {
+                    let missing = mand_ids[0];
+                    let mut t3 = table.clone();
+                    t3.t[missing as usize] = Mand::Unknown;
+                    let mut dec3 = plain_dec(2, c.storage, 2, c.storage, t3);
+                    if c.primed {
+                        let mut e2 = Encapsulator::new(DefaultCrc {});
+                        let mut b = [0u8; 32];
+                        if let Ok(Ok(EncapStatus::CompletedPkt(n))) = guard(|| e2.encap(b"", 0, meta_plain(c.label), &mut b)) {
+                            if let Ok(Ok((DecapStatus::CompletedPkt(bf, _), _))) = dec_guard(&mut dec3, &b[..n as usize]) {
+                                let _ = dec3.provision_storage(bf);
+                            }
+                        }
+                    }
+                    let older = crate::hostile::mk_first(p0.lt, &p0.label, p0.frag_id.unwrap_or(9), tl, pt, &pkts[0][p0.payload.clone()]);
+                    rep.eval();
+                    if matches!(dec_guard(&mut dec3, &older), Ok(Ok((DecapStatus::FragmentedPkt(_), _)))) {
+                        rep.count("c13.older-train-opened");
+                        for (i, p) in pkts.iter().enumerate() {
+                            rep.eval();
+                            let r = dec_guard(&mut dec3, p);
+                            if let Ok(Ok((DecapStatus::CompletedPkt(_, m), _))) = &r {
+                                rep.violation("C13", format!("unknown-mandatory:pdu-delivered-through-an-older-train:{}", cls), || format!("{}: receiver that does not know mandatory extension {:#06x} had an older train open on the same fragment id; packet {}/{} of the train with the unknown extension delivered a PDU of {} bytes with {} extensions", desc(), missing, i + 1, np, m.pdu_len(), m.extensions().len()), replay);
+                                break;
+                            }
+                            if i == 0 && !matches!(&r, Ok(Err(_))) {
+                                break;
+                            }
+                        }
+                    }
+                }
+            }
+        }
+    }
     if np > 1 {
         "fragmented-ok"
     } else {
@@ -263,7 +315,7 @@ impl Property for Prop {
         "C13"
     }
     fn rule(&self) -> &'static str {
-        "ctor: every extension id 0..=0xFFFF x data length 0..=10 (Ok <=> id < 0x0600 and (id < 0x0100 or length == H-LEN table), never a panic); small: seeded chains of 1..4 extensions (every optional H-LEN class, known non-final mandatory extensions with 0..8 data bytes, optionally a final mandatory extension last with type == its id) x all label kinds (incl. re-use substituted) x PDUs of 0..=64 bytes x EVERY buffer size from 5 to the full packet length + 2 (fragmentation at every offset inside and after the extension area) x storage == PDU length or larger; large: lattice-sized PDUs and buffers; ptypes: every protocol type 0..=0x06FF through encap_ext with a one-element chain (reserved range refused, everything accepted decodable); illegal: type < 0x0100 with a non-matching / non-mandatory last extension, types 0x0100..0x05FF, final extension not matching the type (an error is expected; Ok is judged by decodability). Each Ok result is decoded by the independent parser and by the real receiver with an all-knowing manager, then by a receiver lacking one mandatory id. Non-trivial = a case that reached the receiver round trip; fingerprint = (chain shape, label, PDU length, buffer, storage)."
+        "ctor: every extension id 0..=0xFFFF x data length 0..=10 (Ok <=> id < 0x0600 and (id < 0x0100 or length == H-LEN table), never a panic); small: seeded chains of 1..4 extensions (every optional H-LEN class, known non-final mandatory extensions with 0..8 data bytes, optionally a final mandatory extension last with type == its id) x all label kinds (incl. re-use substituted) x PDUs of 0..=64 bytes x EVERY buffer size from 5 to the full packet length + 2 (fragmentation at every offset inside and after the extension area) x storage == PDU length or larger; large: lattice-sized PDUs and buffers; ptypes: every protocol type 0..=0x06FF through encap_ext with a one-element chain (reserved range refused, everything accepted decodable); illegal: type < 0x0100 with a non-matching / non-mandatory last extension, types 0x0100..0x05FF, final extension not matching the type (an error is expected; Ok is judged by decodability). Each Ok result is decoded by the independent parser and by the real receiver with an all-knowing manager, then by a receiver lacking one mandatory id (the packet is dropped repeatedly, the following packet is still delivered, and the whole PDU stays dropped even when an older compatible train is open on the same fragment id). One legal case in four is preceded, on the same encapsulator, by an encap_ext call with the same label that is refused (reserved protocol type / non-matching final mandatory extension): the refused call must not change how the next packet is encoded. Non-trivial = a case that reached the receiver round trip; fingerprint = (chain shape, label, PDU length, buffer, storage)."
     }
     fn gens(&self, cx: &Cx) -> Vec<Gen> {
         vec![
@@ -321,7 +373,7 @@ impl Property for Prop {
                 let chain = ExtSpec { entries: vec![ExtEntry { id: 0x0200 | (key as u16 & 0xFF), data: vec![0x11, 0x22] }], final_ext: false };
                 let pdu = gen_pdu(&mut rng, 20, 0);
                 for (label, bl) in [(Label::Broadcast, 64usize), (gen_label(&mut rng, 2), 20)] {
-                    let c = Case { chain: &chain, ptype, label, primed: false, pdu: &pdu, buf_len: bl, storage: 20, legal: ptype >= 0x600 };
+                    let c = Case { chain: &chain, ptype, label, primed: false, pdu: &pdu, buf_len: bl, storage: 20, legal: ptype >= 0x600, pre_fail: false };
                     let o = run_case(&c, &mut rng, rep, &replay);
                     rep.count(&format!("c13.ptypes.{}", o));
                     if (0x0100..0x0600).contains(&ptype) && o != "error" {
@@ -402,7 +454,7 @@ impl Property for Prop {
                             return;
                         }
                         let storage = if (bl + plen) % 2 == 0 { plen } else { plen + 1 + rng.below(40) };
-                        let c = Case { chain: &chain, ptype, label, primed, pdu: &pdu, buf_len: bl, storage, legal };
+                        let c = Case { chain: &chain, ptype, label, primed, pdu: &pdu, buf_len: bl, storage, legal, pre_fail: legal && bl % 4 == 1 };
                         let o = run_case(&c, &mut rng, rep, &replay);
                         rep.count(&format!("c13.{}", o));
                         if o.ends_with("-ok") {
@@ -428,7 +480,8 @@ impl Property for Prop {
                         _ => rng.below(hdr + plen + 40),
                     };
                     let storage = if rng.chance(1, 2) { plen } else { plen + rng.below(100) };
-                    let c = Case { chain: &chain, ptype, label, primed, pdu: &pdu, buf_len: bl, storage, legal };
+                    let pre_fail = legal && rng.chance(1, 4);
+                    let c = Case { chain: &chain, ptype, label, primed, pdu: &pdu, buf_len: bl, storage, legal, pre_fail };
                     let o = run_case(&c, &mut rng, rep, &replay);
                     rep.count(&format!("c13.{}.{}", gen, o));
                     if o.ends_with("-ok") {
